@@ -602,8 +602,14 @@ impl Formatter {
         if self.html {
           format!("<span class=\"mech-text\">{}</span>", n.to_string())
         } else {
-          // a backslash in paragraph text is an escape character when read back
-          n.to_string().replace('\\', "\\\\")
+          // a backslash in paragraph text is an escape character when read back, and the characters that open inline markup
+          // can only be part of a text run if they were escaped
+          let mut out = String::new();
+          for c in n.to_string().chars() {
+            if matches!(c, '\\' | '*' | '_' | '`' | '~' | '[' | '|') { out.push('\\'); }
+            out.push(c);
+          }
+          out
         }
       }
       ParagraphElement::FootnoteReference(n) => self.footnote_reference(n),
@@ -621,7 +627,9 @@ impl Formatter {
         if self.html {
           format!("<a href=\"{}\" class=\"mech-hyperlink\">{}</a>",url_str,text_str)
         } else {
-          format!("[{}]({})",text_str,url_str)
+          // a bare URL (autolink) is kept bare: written as `[url](url)` the text part is read as an autolink again
+          let bare = matches!(text.elements.as_slice(), [ParagraphElement::Text(t)] if t.to_string() == url_str);
+          if bare { url_str } else { format!("[{}]({})",text_str,url_str) }
         }
       },
       ParagraphElement::Emphasis(n) => {
